@@ -422,7 +422,7 @@ async def execute(case):
             "our_tasks": len([t for t in Function.our_tasks if not t.done()]),
             "task2cb": len(Function.task2cb),
         }
-        errs = [e[2][-160:] for e in it.errors()]
+        errs = [e[2][-400:] for e in it.errors()]
         State.get_service_params = classmethod(orig_gsp)
     problem = next((s["problem"] for s in trace if "problem" in s), None)
     where = next((s["i"] for s in trace if "problem" in s), None)
@@ -443,7 +443,7 @@ class C09(ModelCheck):
         "@service; del; rebind to a constant; closures created by a factory and stored in a list / dict, popped, "
         "deleted, cleared; rewrite the file and reload; delete the file and reload; finally unload - interleaved with "
         "occurrences (state change, event, 3 s clock advance, service call); garbage collection forced after every "
-        "step; both subsystems, the shard index is the hash seed. Oracle: a model of live function generations - every "
+        "step; both subsystems, the shard index is the hash seed; pyscript must not log an error of its own meanwhile (only the rejection of a service name owned by another context). Oracle: a model of live function generations - every "
         "occurrence is recorded by exactly the live generations; State.notify queues per entity, event listeners and "
         "registered services equal what the model derives after every step; startup/shutdown run once per "
         "definition/removal; after unload every pyscript table is empty and the bus has no pyscript listeners left. "
@@ -470,6 +470,12 @@ class C09(ModelCheck):
             problems.append(r["problem"])
         if left != CLEAN:
             problems.append(f"left after unload: { {k: v for k, v in left.items() if v != CLEAN[k]} }")
+        # defining and removing functions never makes pyscript log an error of its own; the only expected error is the
+        # rejection of a service name that another context owns
+        for e in r["errors"]:
+            if "can't register service" not in e and "start failed" not in e:
+                problems.append("internal-error logged: " + e.strip().splitlines()[-1][-120:])
+                break
         seen_deact = False
         nt = False
         for o in case["ops"]:
